@@ -116,3 +116,17 @@ for _prog in (False, True):
             _combos = [(0,) * _k, (1,) * _k, (2,) * _k, tuple(i % 3 for i in range(_k))]
         for _c in _combos:
             _tag_contract(_prog, _shape, _c, _tier)
+
+# frame condition: the path of a tag depends on THIS tag_info -- the same name in another tag database (another controller, a
+# re-downloaded program) has another instance id
+contract(
+    id="tag_request_path.fresh", func="pycomm3.packets.util.tag_request_path",
+    call="pycomm3.packets.util.tag_request_path(tag, {'instance_id': id2}, use_instance_ids)",
+    bind={"tag": ["'speed'", "'arr[3]'", "'Program:Main.x'"]},
+    params={"id1": P.int(1, 0xFFFFFFFF), "id2": P.int(1, 0xFFFFFFFF), "use_instance_ids": P.bool()},
+    setup=["first = pycomm3.packets.util.tag_request_path(tag, {'instance_id': id1}, use_instance_ids)",
+           "other = pycomm3.packets.util.tag_request_path(tag, {'instance_id': id1}, not use_instance_ids)",
+           "name = tag.split('[')[0]", "idx = (3,) if '[' in tag else ()",
+           "prog, base = (('Main', 'x') if tag.startswith('Program:') else (None, name))"],
+    ensures=["spec.epath.try_parse_sized(result) == spec.epath.tag_path(prog, (base,), (idx,), id2, use_instance_ids)"],
+    props=["C09", "C01", "C02"])
